@@ -180,6 +180,13 @@ func genC16(g *prng.R) c16Case {
 			}
 			cs.WantStore[id] = want
 		}
+		if g.Chance(1, 5) {
+			// one object named twice: it was what it was when the request
+			// arrived, whichever mention is looked at
+			first, _ := idOfValue(objs[0])
+			objs = append(objs, first)
+			cs.Info["object_named_twice"] = true
+		}
 		act["object"] = objs
 	case "Add", "Remove":
 		var objs A
@@ -220,6 +227,19 @@ func genC16(g *prng.R) c16Case {
 							stored[k] = M{"type": "Note", "id": stored[k]}
 						}
 					}
+				}
+				if g.Chance(1, 6) {
+					// a member that names no id (it cannot be one of the ids
+					// to remove, and stays), or is of a type the
+					// vocabularies do not define
+					anon := pick(g, "anonymous", "hashtag")
+					var mv interface{} = M{"type": "Note", "content": "anonymous member"}
+					if anon == "hashtag" {
+						mv = M{"type": "Hashtag", "name": "#x"}
+					}
+					at := g.Intn(len(stored) + 1)
+					stored = append(stored[:at:at], append(A{mv}, stored[at:]...)...)
+					cs.Info["idless_member"] = anon
 				}
 				tid = ownedCollection(sc, fmt.Sprintf("t%d", i), ordered, stored...)
 				member, ct := "items", "Collection"
